@@ -407,14 +407,28 @@ def is_log(t):
 
 
 class Prog:
-    def __init__(self, facts_dir):
+    def __init__(self, facts_dir, normalise=True):
         self.bodies = {}
         self.adts = {}
         self.n_calls = 0
         self.crates = []
+        texts = []
         for fn in ('nundb.json', 'nun_db.json'):
             with open(os.path.join(facts_dir, fn)) as fh:
-                d = json.load(fh)
+                texts.append(fh.read())
+        parsed = [json.loads(x) for x in texts]
+        # rename normalisation (symbols.py): functions of the reference tree that are missing here are
+        # matched by fingerprint against the functions the reference does not know
+        self.renamed = []
+        if normalise:
+            from . import symbols
+            ref = symbols.load_ref()
+            if ref:
+                mapping, log = symbols.match(ref, symbols.fingerprints(parsed))
+                if mapping:
+                    parsed = [json.loads(x) for x in symbols.rewrite(texts, mapping)]
+                    self.renamed = log
+        for d in parsed:
             self.crates.append(d['crate'])
             self.n_calls += d['n_calls']
             for b in d['bodies']:
